@@ -132,6 +132,15 @@ CHECKS = {
             'the text is executed in a namespace holding only its own imports and the rebuilt object compared recursively.',
             'bounded-exhaustive enumeration of states; printed text executed and compared',
             BASE_NOTE),
+    'C17': ('model_checking', 'DESIGN.md §3 C17',
+            'Every pre-copy history of length <= 2 (sets, update, in-place mutation, per-instance Parameter edits incl. Selector objects of dict and '
+            'OrderedDict kind, sub-object attachment, user watchers bound to the instance with precedences, ordinary attributes incl. one stored in the '
+            'class\'s own __slots__) x copy mechanism (deepcopy, pickle protocols 2 and 5; thorough 0-5) x every post-copy history of length <= 2 applied '
+            'to the original or the copy is executed: the copy must succeed, equal the original (values, per-instance Parameter attributes, ordinary '
+            'attributes), share no mutable object (identity walk), every later operation must leave the other side\'s snapshot and the class-level state '
+            'untouched, dependent methods fire exactly once on the side operated on and user watchers run bound to that side in precedence order.',
+            'exhaustive enumeration of (pre-history, mechanism, post-history) cases on the real code with differential oracles',
+            BASE_NOTE),
     'C18': ('model_checking', 'DESIGN.md §3 C18',
             'Every mutation history up to the depth bound over list- and dict-declared Selector/ListSelector '
             '(class and instance level) is executed on the real ListProxy and compared after every step with a '
